@@ -87,3 +87,39 @@ Proof. reflexivity. Qed.
 
 Theorem ws_close_spec outcome : ws_close 0 false = 1000%Z /\ ws_close outcome true = 1003%Z /\ (outcome <> 0%Z -> ws_close outcome false = 1001%Z).
 Proof. repeat split. intros H. unfold ws_close. destruct (Z.eqb_spec outcome 0); [contradiction | reflexivity]. Qed.
+
+(* ---- the reason of the close frame: at most 123 bytes, a prefix of the full reason, never cut inside a character ---- *)
+Lemma rune_cut_le : forall n s, (rune_cut n s <= n)%nat.
+Proof. induction n as [|m IH]; intros s; cbn [rune_cut]; [lia|]. destruct (is_cont (nth (S m) s 0%N)); [specialize (IH s); lia | lia]. Qed.
+
+Lemma rune_cut_start : forall n s, rune_cut n s = O \/ is_cont (nth (rune_cut n s) s 0%N) = false.
+Proof.
+  induction n as [|m IH]; intros s; cbn [rune_cut]; [left; reflexivity|].
+  destruct (is_cont (nth (S m) s 0%N)) eqn:E; [apply IH | right; exact E].
+Qed.
+
+Lemma hd_skipn : forall k (s : bytes), hd 0%N (skipn k s) = nth k s 0%N.
+Proof. induction k as [|k IH]; intros s; destruct s as [|a s]; try reflexivity. cbn [skipn nth]. apply IH. Qed.
+
+Theorem truncate_reason_spec : forall s,
+  (length (truncate_reason s) <= max_reason)%nat /\
+  (exists rest, s = truncate_reason s ++ rest /\
+     (rest = [] \/ truncate_reason s = [] \/ is_cont (hd 0%N rest) = false)).
+Proof.
+  intros s. unfold truncate_reason. destruct (Nat.leb_spec (length s) max_reason) as [L|L].
+  - split; [exact L|]. exists []. rewrite app_nil_r. auto.
+  - pose proof (rune_cut_le max_reason s) as C. split.
+    + rewrite firstn_length. apply Nat.le_trans with (rune_cut max_reason s); [apply Nat.le_min_l | exact C].
+    + exists (skipn (rune_cut max_reason s) s). split; [symmetry; apply firstn_skipn|].
+      destruct (rune_cut_start max_reason s) as [Z|S].
+      * right. left. rewrite Z. reflexivity.
+      * right. right. rewrite hd_skipn. exact S.
+Qed.
+
+(* a long reason of two-byte characters: the cut backs up to the character boundary (122 bytes, not 123) *)
+Example truncate_two_byte : length (truncate_reason (concat (repeat [195; 169]%N 70))) = 122%nat.
+Proof. vm_compute. reflexivity. Qed.
+
+(* the limit is the one in the source (regenerated on every run) *)
+Lemma max_reason_source : max_reason = Extracted.ws_max_reason.
+Proof. reflexivity. Qed.
